@@ -206,6 +206,13 @@ def placed_body(ctx, case):
                   observed="no exception", expected="ValueError")
         return
 
+    n_clipped = sum(1 for k in exp["kept"] if exp["kept"][k] != exp["unreduced"][k])
+    if exp["dropped"]:
+        ctx.classify("has-dropped")
+    if n_clipped:
+        ctx.classify("has-clipped")
+    ctx.nontrivial(nsym > 0 and (n_clipped > 0 or bool(exp["dropped"])))
+
     objects, arrays, _params, config, _ = fdtdx.place_objects(objs, cfg, cons, jax.random.PRNGKey(0))
 
     red = exp["reduced"]
@@ -271,11 +278,6 @@ def placed_body(ctx, case):
     if case["det"] and case["det"]["name"] in exp["kept"]:
         ctx.classify("detector-kept")
 
-    if exp["dropped"]:
-        ctx.classify("has-dropped")
-    if clipped:
-        ctx.classify("has-clipped")
-    ctx.nontrivial(nsym > 0 and (clipped > 0 or bool(exp["dropped"])))
 
 
 # ----------------------------------------------------------------------------------------------
@@ -348,6 +350,7 @@ def reduce_body(ctx, case):
         ctx.check(False, f"odd/too small cell count {shape} on a symmetric axis {sym} was accepted",
                   observed="no exception", expected="ValueError")
         return
+    ctx.nontrivial(bool(exp["dropped"]) or any(exp["kept"][k] != exp["unreduced"][k] for k in exp["kept"]))
     new, unred, dropped, red = reduce_resolved_slices(resolved_slices=resolved, object_map=omap, config=cfg,
                                                       volume_name="volume")
     ctx.check(tuple(red) == exp["reduced"], "reduced volume shape wrong", observed=list(red),
@@ -379,7 +382,6 @@ def reduce_body(ctx, case):
               expected=sorted(exp["walls"]))
     ctx.check(all(w.direction == "-" for w in walls), "wall not on the min side")
     ctx.metric("boxes_checked", len(full))
-    ctx.nontrivial(n_clip > 0 or bool(exp["dropped"]))
 
 
 SUBS = [
